@@ -148,6 +148,27 @@ class OverlapExact(Component):
                     ctx.violation("filter=OverlapFilter,kind=filter_pair-inexact",
                                   "%s.filter_pair(%r, %r) returned %r; overlap %d"
                                   % (desc, a, b, r, s[2]))
+        # filter_pair with the same tokenizer in bag mode: the overlap is that of the token
+        # *sets* ("input lists are converted to sets"), also for identical strings and
+        # strings with repeated tokens
+        fb = calls.make_filter(ctx, {"type": "overlap", "threshold": case["threshold"],
+                                     "op": case["op"], "allow_missing": case["allow_missing"]},
+                               mk_tok(dict(case["tok"], return_set=False)))
+        if fb is not None:
+            stok = oracle.Tok(case["tok"], True)
+            present = [v for v in lv + rv if not oracle.is_missing(v)]
+            pairs = [(a, b) for a in lv for b in rv] + [(a, a) for a in present]
+            for a, b in pairs:
+                if oracle.is_missing(a) or oracle.is_missing(b):
+                    continue
+                x, y = set(stok(a)), set(stok(b))
+                keep = len(x) > 0 and len(y) > 0 and bool(op(len(x & y), t))
+                r = ctx.lib(fb.filter_pair, a, b)
+                if r is not None and bool(r) != (not keep):
+                    ctx.violation("filter=OverlapFilter,kind=filter_pair-inexact",
+                                  "%s.filter_pair(%r, %r) with the tokenizer in bag mode returned "
+                                  "%r; the token sets share %d tokens"
+                                  % (desc, a, b, r, len(x & y)))
         df = ctx.lib(f.filter_tables, L, R, case["L"]["key"], case["R"]["key"],
                      case["L"]["attr"], case["R"]["attr"], case["l_out"], case["r_out"],
                      case["prefix"][0], case["prefix"][1], case["out_sim_score"], 1, False)
